@@ -288,8 +288,16 @@ func c06(c *Ctx) {
 	// ---- no-claimed-alloc
 	{
 		readSide := []string{"(*Conn).advanceFrame", "(*Conn).read", "(*Conn).NextReader", "(*messageReader).Read", "(*Conn).ReadMessage", "(*Conn).setReadRemaining", "(*messageReader).Close", "(*Conn).handleProtocolError"}
+		listed := map[string]bool{}
 		for _, name := range readSide {
-			fn := c.fn(name)
+			c.fn(name) // anchors
+			listed[name] = true
+		}
+		for _, fn := range c.P.FuncList { // every function of the package (ReadJSON, a new fast path, a helper): the claimed length sizes no allocation anywhere
+			name := shortFn(fn)
+			if fn.Synthetic != "" {
+				continue
+			}
 			ok, why := true, "no allocation size depends on the claimed frame or message length"
 			for _, b := range fn.Blocks {
 				for _, in := range b.Instrs {
@@ -313,7 +321,9 @@ func c06(c *Ctx) {
 					}
 				}
 			}
-			r.Check("C06.no-claimed-alloc", name, "no-length-sized-allocation", fn.Pos(), ok, why)
+			if listed[name] || !ok {
+				r.Check("C06.no-claimed-alloc", name, "no-length-sized-allocation", fn.Pos(), ok, why)
+			}
 		}
 		// peek sizes in advanceFrame
 		ok, why := true, "every (*Conn).read(n) has n <= 125 on its path"
